@@ -34,6 +34,8 @@ pub enum Target
     Spawned(u8),
     /// `World::syscall_once`: a fresh system every time (no key, no persistent state)
     Once(F),
+    /// `syscall_with_validation`: the validation function runs once, first; same key as `syscall`
+    SyscallV(F),
 }
 
 #[derive(Debug, Clone, PartialEq, Eq, Hash, Serialize, Deserialize)]
@@ -77,6 +79,10 @@ pub enum TopOp
     WorldUnitSyscall(u32),
     /// free function `spawned_syscall(world, id, x)` on a unit-spawned slot: same state as `Commands::spawned_syscall`
     WorldUnitSpawned(u8, u32),
+    /// `Commands::syscall_with_validation` (false) / `Commands::syscall_once_with_validation` (true) + flush
+    CmdSyscallV(u32, bool),
+    /// mutate the plain resource the ordinary system watches through Bevy change detection
+    Touch,
 }
 
 #[derive(Debug, Clone, PartialEq, Eq, Hash, Serialize, Deserialize, Default)]
@@ -92,7 +98,13 @@ pub struct Out
     x: u32,
     count: u32,
     nested: Vec<Result<Out, ()>>,
+    /// `Res<Probe>::is_changed()` as seen by the ordinary system `sys_n` (None for the exclusive ones)
+    changed: Option<bool>,
 }
+
+/// Plain resource watched through Bevy change detection by `sys_n`.
+#[derive(Resource, Default)]
+struct Probe(u32);
 
 #[derive(Debug, Clone, PartialEq, Eq)]
 enum Effect
@@ -102,6 +114,7 @@ enum Effect
     Unit(u32, u32),
     UnitSpawned(u32, u32),
     UnitOnce(u32, u32),
+    Validated,
 }
 
 /// Expected output; `count: None` = unconstrained (a re-entrant call on a running syscall / named key runs on
@@ -113,6 +126,8 @@ struct ExpOut
     x: u32,
     count: Option<u32>,
     nested: Vec<Result<ExpOut, ()>>,
+    /// None: unconstrained
+    changed: Option<bool>,
 }
 
 #[derive(Debug, Clone, PartialEq, Eq)]
@@ -123,6 +138,7 @@ enum ExpEffect
     Unit(u32, u32),
     UnitSpawned(u32, u32),
     UnitOnce(u32, u32),
+    Validated,
 }
 
 fn out_matches(got: &Result<Out, ()>, want: &Result<ExpOut, ()>) -> bool
@@ -132,6 +148,7 @@ fn out_matches(got: &Result<Out, ()>, want: &Result<ExpOut, ()>) -> bool
         (Err(()), Err(())) => true,
         (Ok(g), Ok(w)) =>
             g.f == w.f && g.x == w.x && w.count.map(|c| c == g.count).unwrap_or(true) && g.nested.len() == w.nested.len()
+                && (w.changed.is_none() || g.changed.is_none() || w.changed == g.changed)
                 && g.nested.iter().zip(w.nested.iter()).all(|(a, b)| out_matches(a, b)),
         _ => false,
     }
@@ -146,6 +163,7 @@ fn effect_matches(got: &Effect, want: &ExpEffect) -> bool
         (Effect::Unit(a, b), ExpEffect::Unit(c, d)) => a == c && b == d,
         (Effect::UnitSpawned(a, b), ExpEffect::UnitSpawned(c, d)) => a == c && b == d,
         (Effect::UnitOnce(a, b), ExpEffect::UnitOnce(c, d)) => a == c && b == d,
+        (Effect::Validated, ExpEffect::Validated) => true,
         _ => false,
     }
 }
@@ -169,6 +187,8 @@ fn effect(e: Effect) { ST.with(|s| s.borrow_mut().effects.push(e)); }
 
 fn name_of<S: 'static>(_s: S, id: u8) -> SysName { SysName::new::<S>(id) }
 
+fn validate(_w: &mut World) { effect(Effect::Validated); }
+
 fn perform(world: &mut World, spec: &CallSpec) -> Result<Out, ()>
 {
     let plan = spec.clone();
@@ -183,6 +203,9 @@ fn perform(world: &mut World, spec: &CallSpec) -> Result<Out, ()>
         Target::NamedDirect(n, F::A) => named_syscall_direct::<In<CallSpec>, Out>(world, name_of(sys_a, n), plan).map_err(|_| ()),
         Target::NamedDirect(n, F::B) => named_syscall_direct::<In<CallSpec>, Out>(world, name_of(sys_b, n), plan).map_err(|_| ()),
         Target::NamedDirect(n, F::N) => named_syscall_direct::<In<CallSpec>, Out>(world, name_of(sys_n, n), plan).map_err(|_| ()),
+        Target::SyscallV(F::A) => Ok(syscall_with_validation(world, plan, sys_a, validate)),
+        Target::SyscallV(F::B) => Ok(world.syscall_with_validation(plan, sys_b, validate)),
+        Target::SyscallV(F::N) => Ok(syscall_with_validation(world, plan, sys_n, validate)),
         Target::Once(F::A) => Ok(world.syscall_once(plan, sys_a)),
         Target::Once(F::B) => Ok(world.syscall_once(plan, sys_b)),
         Target::Once(F::N) => Ok(world.syscall_once(plan, sys_n)),
@@ -214,7 +237,7 @@ fn sys_a(In(plan): In<CallSpec>, world: &mut World, mut local: Local<u32>) -> Ou
     let count = *local;
     let nested = plan.nested.iter().map(|n| perform(world, n)).collect();
     queue_effects(world, F::A, &plan, count);
-    Out{ f: F::A, x: plan.x, count, nested }
+    Out{ f: F::A, x: plan.x, count, nested, changed: None }
 }
 
 fn sys_b(In(plan): In<CallSpec>, world: &mut World, mut local: Local<u32>) -> Out
@@ -223,12 +246,13 @@ fn sys_b(In(plan): In<CallSpec>, world: &mut World, mut local: Local<u32>) -> Ou
     let count = *local;
     let nested = plan.nested.iter().map(|n| perform(world, n)).collect();
     queue_effects(world, F::B, &plan, count);
-    Out{ f: F::B, x: plan.x, count, nested }
+    Out{ f: F::B, x: plan.x, count, nested, changed: None }
 }
 
 /// A normal (non-exclusive) system: it can only queue.
-fn sys_n(In(plan): In<CallSpec>, mut c: Commands, mut local: Local<u32>) -> Out
+fn sys_n(In(plan): In<CallSpec>, mut c: Commands, mut local: Local<u32>, probe: Res<Probe>) -> Out
 {
+    let changed = Some(probe.is_changed());
     *local += 1;
     let count = *local;
     let x = plan.x;
@@ -237,7 +261,7 @@ fn sys_n(In(plan): In<CallSpec>, mut c: Commands, mut local: Local<u32>) -> Out
     {
         c.queue(move |w: &mut World| { let r = perform(w, &q); effect(Effect::QueuedResult(r)); });
     }
-    Out{ f: F::N, x, count, nested: Vec::new() }
+    Out{ f: F::N, x, count, nested: Vec::new(), changed }
 }
 
 fn unit_sys(In(x): In<u32>, mut local: Local<u32>)
@@ -287,6 +311,9 @@ struct Model
     running: Vec<Key>,
     unit_count: u32,
     unit_slots: Vec<u32>,
+    /// number of `Touch` ops so far, and per key the number its system saw at its last run (absent: fresh state)
+    touches: u64,
+    seen: HashMap<Key, u64>,
     effects: Vec<ExpEffect>,
     classes: BTreeMap<String, u32>,
 }
@@ -311,11 +338,13 @@ impl Model
                 let r = self.call(q, depth + 1);
                 self.effects.push(ExpEffect::QueuedResult(r));
             }
-            return Ok(ExpOut{ f, x: spec.x, count: Some(1), nested });
+            // a fresh system: everything counts as changed
+            return Ok(ExpOut{ f, x: spec.x, count: Some(1), nested, changed: if f == F::N { Some(true) } else { None } });
         }
         let (key, f) = match spec.target
         {
             Target::Once(_) => unreachable!(),
+            Target::SyscallV(f) => { self.hit("C17:with_validation"); (Key::Syscall(f), f) }
             Target::Syscall(f) => (Key::Syscall(f), f),
             Target::Named(n, f) => { self.named_exists.insert((n, f), true); (Key::Named(n, f), f) }
             Target::NamedDirect(n, f) =>
@@ -338,6 +367,18 @@ impl Model
         // the outer-most invocation's state is the one that is kept
         let reentrant = self.running.contains(&key);
         let count = if reentrant { self.hit("C17:reentrant_same_key"); None } else { let c = self.counts.entry(key).or_default(); *c += 1; Some(*c) };
+        // documented: the validation function is called when the system is run for the first time, i.e. whenever
+        // the cached system has to be created (first use of the key, or a re-entrant call while the cached one is out)
+        if matches!(spec.target, Target::SyscallV(_)) && count == Some(1) { self.effects.push(ExpEffect::Validated); }
+        // change detection of the ordinary system: its baseline is the start of its own previous run (part of the
+        // key's state); a fresh state sees everything as changed
+        let changed = if f != F::N || reentrant { None } else
+        {
+            let c = match self.seen.get(&key) { None => true, Some(n) => self.touches > *n };
+            self.seen.insert(key, self.touches);
+            if c && self.counts.get(&key).copied().unwrap_or(0) > 1 { self.hit("C17:change_detected_across_calls"); }
+            Some(c)
+        };
         self.running.push(key);
         let nested: Vec<Result<ExpOut, ()>> = if f == F::N { Vec::new() } else { spec.nested.iter().map(|n| self.call(n, depth + 1)).collect() };
         // the body's commands: marker first, then the queued calls in order
@@ -348,7 +389,7 @@ impl Model
             self.effects.push(ExpEffect::QueuedResult(r));
         }
         self.running.pop();
-        Ok(ExpOut{ f, x: spec.x, count, nested })
+        Ok(ExpOut{ f, x: spec.x, count, nested, changed })
     }
 }
 
@@ -357,9 +398,13 @@ impl Model
 fn reenters(stack: &[Target], target: Target) -> bool
 {
     let key = |t: Target| match t { Target::Named(n, f) | Target::NamedDirect(n, f) => Some((n, f)), _ => None };
+    // `syscall_with_validation` on a running syscall key: whether the validation function runs again depends on
+    // whether an earlier re-entrant call left its own system behind (documented: that state does not persist)
+    let skey = |t: Target| match t { Target::Syscall(f) | Target::SyscallV(f) => Some(f), _ => None };
     match target
     {
         Target::NamedDirect(..) => stack.iter().any(|s| key(*s) == key(target)),
+        Target::SyscallV(_) => stack.iter().any(|s| skey(*s) == skey(target)),
         _ => false,
     }
 }
@@ -381,6 +426,7 @@ fn run_inner(case: &SysCase, out: &mut SysOutcome)
     let mut world = std::mem::take(app.world_mut());
     let mut model = Model::default();
     let plain_entity = world.spawn_empty().id();
+    world.insert_resource(Probe::default());
     for (i, op) in case.ops.iter().enumerate()
     {
         let before = ST.with(|s| s.borrow().effects.len());
@@ -395,24 +441,34 @@ fn run_inner(case: &SysCase, out: &mut SysOutcome)
             }
             TopOp::Register(n, f) =>
             {
-                match f
+                match (f, *n % 2)
                 {
-                    F::A => register_named_system(&mut world, name_of(sys_a, *n), sys_a),
-                    F::B => register_named_system(&mut world, name_of(sys_b, *n), sys_b),
-                    F::N => register_named_system(&mut world, name_of(sys_n, *n), sys_n),
+                    (F::A, 0) => register_named_system(&mut world, name_of(sys_a, *n), sys_a),
+                    (F::B, 0) => register_named_system(&mut world, name_of(sys_b, *n), sys_b),
+                    (F::N, 0) => register_named_system(&mut world, name_of(sys_n, *n), sys_n),
+                    (F::A, _) => register_named_system_from(&mut world, name_of(sys_a, *n), CallbackSystem::new(sys_a)),
+                    (F::B, _) => register_named_system_from(&mut world, name_of(sys_b, *n), CallbackSystem::new(sys_b)),
+                    (F::N, _) => register_named_system_from(&mut world, name_of(sys_n, *n), CallbackSystem::new(sys_n)),
                 }
                 // a (re-)registered system starts with fresh state
                 model.counts.insert(Key::Named(*n, *f), 0);
+                model.seen.remove(&Key::Named(*n, *f));
                 model.named_exists.insert((*n, *f), true);
                 model.hit("C17:register_named");
             }
             TopOp::Spawn(f) =>
             {
-                let id = match f
+                let id = match (f, i % 3)
                 {
-                    F::A => spawn_system(&mut world, sys_a),
-                    F::B => spawn_system(&mut world, sys_b),
-                    F::N => spawn_system(&mut world, sys_n),
+                    (F::A, 0) => spawn_system(&mut world, sys_a),
+                    (F::B, 0) => spawn_system(&mut world, sys_b),
+                    (F::N, 0) => spawn_system(&mut world, sys_n),
+                    (F::A, 1) => spawn_system_from(&mut world, CallbackSystem::new(sys_a)),
+                    (F::B, 1) => spawn_system_from(&mut world, CallbackSystem::new(sys_b)),
+                    (F::N, 1) => spawn_system_from(&mut world, CallbackSystem::new(sys_n)),
+                    (F::A, _) => { let id = world.commands().spawn_system_from(CallbackSystem::new(sys_a)); world.flush(); id }
+                    (F::B, _) => { let id = world.commands().spawn_system(sys_b); world.flush(); id }
+                    (F::N, _) => { let id = world.commands().spawn_system_from(CallbackSystem::new(sys_n)); world.flush(); id }
                 };
                 ST.with(|s| s.borrow_mut().slots.push(Some(id)));
                 model.slots.push((*f, true));
@@ -456,6 +512,7 @@ fn run_inner(case: &SysCase, out: &mut SysOutcome)
                 if model.named_exists.get(&(*n, *f)).copied().unwrap_or(false) { model.hit("C17:revoke_named"); }
                 model.named_exists.insert((*n, *f), false);
                 model.counts.insert(Key::Named(*n, *f), 0);
+                model.seen.remove(&Key::Named(*n, *f));
             }
             TopOp::SpawnRc(f) =>
             {
@@ -502,6 +559,7 @@ fn run_inner(case: &SysCase, out: &mut SysOutcome)
                     {
                         model.slots[k].0 = *f;
                         model.counts.insert(Key::Spawned(k), 0);
+                        model.seen.remove(&Key::Spawned(k));
                         model.hit("C17:insert_system");
                     }
                 }
@@ -521,6 +579,25 @@ fn run_inner(case: &SysCase, out: &mut SysOutcome)
                 if *once { model.effects.push(ExpEffect::UnitOnce(*x, 1)); }
                 else { model.unit_count += 1; model.effects.push(ExpEffect::Unit(*x, model.unit_count)); }
                 model.hit("C17:entity_commands_syscall");
+            }
+            TopOp::CmdSyscallV(x, once) =>
+            {
+                if *once { world.commands().syscall_once_with_validation(*x, unit_once_sys, validate); }
+                else { world.commands().syscall_with_validation(*x, unit_sys, validate); }
+                world.flush();
+                if *once { model.effects.push(ExpEffect::Validated); model.effects.push(ExpEffect::UnitOnce(*x, 1)); }
+                else
+                {
+                    if model.unit_count == 0 { model.effects.push(ExpEffect::Validated); }
+                    model.unit_count += 1;
+                    model.effects.push(ExpEffect::Unit(*x, model.unit_count));
+                }
+                model.hit("C17:commands_with_validation");
+            }
+            TopOp::Touch =>
+            {
+                world.resource_mut::<Probe>().0 += 1;
+                model.touches += 1;
             }
             TopOp::WorldUnitSyscall(x) =>
             {
@@ -598,9 +675,10 @@ impl<'a> Dec<'a>
 
     fn target(&mut self) -> Target
     {
-        match self.below(9)
+        match self.below(10)
         {
             8 => Target::Once(self.f()),
+            9 => Target::SyscallV(self.f()),
             0 | 1 => Target::Syscall(self.f()),
             2 | 3 => { let n = self.below(3) as u8; Target::Named(n, self.f()) }
             4 => { let n = self.below(3) as u8; Target::NamedDirect(n, self.f()) }
@@ -638,8 +716,10 @@ pub fn decode(bytes: &[u8], max_ops: usize) -> SysCase
     let mut case = SysCase::default();
     for _ in 0..n
     {
-        let op = match d.below(20)
+        let op = match d.below(23)
         {
+            21 | 22 => TopOp::Touch,
+            20 => { d.next_x += 1; TopOp::CmdSyscallV(d.next_x, d.byte() & 1 == 1) }
             18 => { d.next_x += 1; TopOp::WorldUnitSyscall(d.next_x) }
             19 => { d.next_x += 1; TopOp::WorldUnitSpawned(d.below(3) as u8, d.next_x) }
             17 => { d.next_x += 1; TopOp::EntCmdSyscall(d.next_x, d.byte() & 1 == 1) }
